@@ -267,6 +267,7 @@ pub fn run(op: &str, args: &[&str]) -> Option<String> {
         ("PREP", [t, l, c]) => Some(prepare(unhex_str(t)?, num(l)?, num(c)?)),
         ("HOV", [t, l, c]) => Some(hover(unhex_str(t)?, num(l)?, num(c)?)),
         ("SIG", [t, l, c]) => Some(signature(unhex_str(t)?, num(l)?, num(c)?)),
+        ("JUDGECOMP", [_, t, l, c]) => Some(completion(unhex_str(t)?, num(l)?, num(c)?)),
         ("COMP", [t, l, c]) => Some(completion(unhex_str(t)?, num(l)?, num(c)?)),
         ("FOLD", [t]) => Some(fold(unhex_str(t)?)),
         ("SEM", [t]) => Some(semantic(unhex_str(t)?)),
@@ -387,6 +388,156 @@ pub fn gen_feature_cases(rng: &mut Rng, n: usize, ops: &[&str], broken_pct: usiz
                     }
                 }
             }
+        }
+    }
+}
+
+// ---------------------------------------------------------------------------------------
+// formatter properties (C09, C10, C11)
+// ---------------------------------------------------------------------------------------
+
+/// formatted text (the document itself when the answer is null)
+fn formatted(text: &str, sp: bool, ts: u32) -> Option<String> {
+    let a = format(text.to_string(), sp, ts);
+    if a == "null" {
+        return Some(text.to_string());
+    }
+    if a.starts_with("PANIC") || a.starts_with("ERR") {
+        return None;
+    }
+    let (_, h) = a.split_once("=>")?;
+    unhex_str(h)
+}
+
+pub fn gen_fmt(rng: &mut Rng, n: usize, which: &str, out: &mut Vec<String>) {
+    for i in 0..n {
+        let prog = gen_prog::gen(rng, 3, 4, 3);
+        // syntactically valid, not necessarily well-typed: rename some identifiers to undefined names
+        let mut toks = prog.toks.clone();
+        if i % 4 == 3 {
+            for t in toks.iter_mut() {
+                if t.binding != gen_prog::Binding::None && !t.is_decl && rng.chance(1, 8) {
+                    t.text = "undefined_name".to_string();
+                }
+            }
+        }
+        let sp = rng.chance(3, 4);
+        let ts = rng.below(9);
+        let opts = format!("{} {}", if sp { 1 } else { 0 }, ts);
+        match which {
+            "C10" => {
+                // comment lines in ANY gap; the case records the gap kind of every comment
+                let lo = Layout { comment_pct: 8, comment_gaps: None, compact: rng.chance(1, 2) };
+                let (text, _, comments) = gen_prog::layout(rng, &toks, &lo);
+                let gaps: Vec<String> = comments.iter().map(|(g, b)| format!("{}={}", hex_str(b.trim()), g)).collect();
+                out.push(format!("JUDGEFMT10 {} {} gaps:{}", hex_str(&text), opts, gaps.join(",")));
+                out.push(format!("FMT {} {}", hex_str(&text), opts));
+                // leading positions only: must never lose a comment
+                let lo = Layout { comment_pct: 25, comment_gaps: Some(gen_prog::LEADING_GAPS), compact: rng.chance(1, 2) };
+                let (text, _, _) = gen_prog::layout(rng, &toks, &lo);
+                out.push(format!("JUDGEFMT10 {} {}", hex_str(&text), opts));
+            }
+            _ => {
+                let lo = Layout { comment_pct: if i % 2 == 0 { 0 } else { 20 }, comment_gaps: Some(gen_prog::LEADING_GAPS), compact: rng.chance(1, 3) };
+                let (text, _, _) = gen_prog::layout(rng, &toks, &lo);
+                let h = hex_str(&text);
+                out.push(format!("FMT {} {}", h, opts));
+                if which == "C09" {
+                    out.push(format!("JUDGEFMT09 {} {}", h, opts));
+                } else {
+                    out.push(format!("JUDGEFMT11 {} {}", h, opts));
+                    out.push(format!("PROPFMTIDEM {} {}", h, opts));
+                    let lo2 = Layout { comment_pct: 0, comment_gaps: None, compact: rng.chance(1, 2) };
+                    // canonicity: a second layout of the same token sequence (comments are tokens of the sequence:
+                    // compare comment-free layouts)
+                    let (a, _, _) = gen_prog::layout(rng, &toks, &lo2);
+                    let (b, _, _) = gen_prog::layout(rng, &toks, &Layout { comment_pct: 0, comment_gaps: None, compact: false });
+                    out.push(format!("PROPFMTCANON {} {} {}", hex_str(&a), hex_str(&b), opts));
+                }
+            }
+        }
+    }
+}
+
+pub fn run_fmt_props(op: &str, args: &[&str]) -> Option<String> {
+    let num = |s: &str| s.parse::<u32>().ok();
+    match (op, args) {
+        ("JUDGEFMT09", [t, sp, ts]) | ("JUDGEFMT11", [t, sp, ts]) => Some(format(unhex_str(t)?, *sp == "1", num(ts)?)),
+        ("JUDGEFMT10", rest) if rest.len() >= 3 => Some(format(unhex_str(rest[0])?, rest[1] == "1", num(rest[2])?)),
+        ("PROPFMTIDEM", [t, sp, ts]) => {
+            let text = unhex_str(t)?;
+            let sp = *sp == "1";
+            let ts = num(ts)?;
+            let t1 = match formatted(&text, sp, ts) {
+                Some(x) => x,
+                None => return Some("bad:PANIC".into()),
+            };
+            let again = format(t1, sp, ts);
+            Some(if again == "null" { "ok".into() } else { "bad:second-format-returns-an-edit".into() })
+        }
+        ("PROPFMTCANON", [a, b, sp, ts]) => {
+            let sp = *sp == "1";
+            let ts = num(ts)?;
+            let x = formatted(&unhex_str(a)?, sp, ts);
+            let y = formatted(&unhex_str(b)?, sp, ts);
+            Some(match (x, y) {
+                (Some(x), Some(y)) => if x == y { "ok".into() } else { "bad:two-layouts-format-differently".into() },
+                _ => "bad:PANIC".into(),
+            })
+        }
+        _ => None,
+    }
+}
+
+// ---------------------------------------------------------------------------------------
+// C16 completion positions (classified by construction)
+// ---------------------------------------------------------------------------------------
+
+pub fn gen_c16(rng: &mut Rng, n: usize, out: &mut Vec<String>) {
+    for i in 0..n {
+        let prog = gen_prog::gen(rng, 3, 4, 3);
+        let lo = Layout { comment_pct: 0, comment_gaps: None, compact: false };
+        let (text, offs, _) = gen_prog::layout(rng, &prog.toks, &lo);
+        let h = hex_str(&text);
+        let bytes = text.as_bytes();
+        let ws_before = |o: usize| o > 0 && (bytes[o - 1] == b' ' || bytes[o - 1] == b'\n' || bytes[o - 1] == b'\t');
+        for (k, t) in prog.toks.iter().enumerate() {
+            let o = offs[k];
+            if !ws_before(o) {
+                continue;
+            }
+            let cls = if t.stmt_start && t.gap == "stmt-start" {
+                // a statement start in a procedure body or block
+                Some("stmt")
+            } else if t.stmt_start {
+                // the start of an unbraced branch / loop body (`if (c) ▮stmt`, `else ▮stmt`)
+                Some("stmtbranch")
+            } else if t.gap == "before-rcurly" && t.text == "}" && k > 0 && (prog.toks[k - 1].text == ";" || prog.toks[k - 1].text == "}" || prog.toks[k - 1].text == "{") {
+                // the closing brace of a body/block: a new statement could start here
+                Some("stmt")
+            } else if t.gap == "after-colon" {
+                Some("type")
+            } else if t.gap == "decl-start" && k > 0 {
+                Some("top")
+            } else {
+                None
+            };
+            let (l, c) = lsp_pos(&text, o);
+            if let Some(cls) = cls {
+                if rng.chance(1, 3) {
+                    out.push(format!("JUDGECOMP {} {} {} {}", cls, h, l, c));
+                    out.push(format!("COMP {} {} {}", h, l, c));
+                }
+            } else if rng.chance(1, 12) {
+                out.push(format!("JUDGECOMP scope {} {} {}", h, l, c));
+                out.push(format!("COMP {} {} {}", h, l, c));
+            }
+        }
+        if i % 2 == 0 {
+            // after the last declaration
+            let (l, c) = lsp_pos(&(text.clone() + "\n"), text.len() + 1);
+            let t2 = text.clone() + "\n";
+            out.push(format!("JUDGECOMP top {} {} {}", hex_str(&t2), l, c));
         }
     }
 }
